@@ -211,6 +211,11 @@ MUTANTS = [
 ]
 
 
+def replay_scope(unit, obl):
+    """the native replay of this property searches per unit, not per obligation: run it once per unit"""
+    return "unit"
+
+
 def replay(unit, obl):
     from checks import ops_native
     return ops_native.replay_any(unit, obl)
